@@ -18,7 +18,7 @@ pub fn property() -> Property {
     Property {
         id: "C16",
         level: "exploration",
-        rule: "Random operation sequences (<= 25 ops, values from small domains so that collisions are frequent) over {new session, clone session, every session setter, header/header_append with colliding names in mixed case, create a builder with each method, every builder setter, headers_mut, prepare, send} are executed in lock-step on the real objects and on a value model in which a builder copies its session's values at creation and nothing flows back or sideways. After EVERY operation the guarded settings snapshot (hook H4) of EVERY live session/builder must equal its model; every send is observed on the wire with one probe: header probe (all header fields sent vs model incl. Accept/User-Agent defaults and Accept-Encoding iff compression allowed), redirect probe (endless 302: number of requests == max_redirections+1, or 1 when following is off), (every third header probe is preceded by a send of an unrelated session that fails while its request is being written: nothing of it may appear on the probed request's connection), header-limit probe (exactly max_headers fields accepted, max_headers+1 refused), proxy probe (address dialled), plus the timeouts / TLS flags / root count handed to the connector (DialRequest). In the threads generator the objects are then distributed over 2..8 barrier-started threads that keep operating on their own clones and sending concurrently; each thread checks its objects against its own copy of the model and the parent checks that the originals did not change. Non-trivial: sequence contains >= 1 send and >= 2 live objects; distinct = hash(op sequence).",
+        rule: "Random operation sequences (<= 25 ops, values from small domains so that collisions are frequent) over {new session, clone session, every session setter, header/header_append with colliding names in mixed case, create a builder with each method, every builder setter, headers_mut, prepare, send} are executed in lock-step on the real objects and on a value model in which a builder copies its session's values at creation and nothing flows back or sideways. Header values include obs-text that is not UTF-8 and non-ASCII UTF-8. After EVERY operation the guarded settings snapshot (hook H4) of EVERY live session/builder must equal its model; every send is observed on the wire with one probe: header probe (all header fields sent vs model incl. Accept/User-Agent defaults and Accept-Encoding iff compression allowed), redirect probe (endless 302: number of requests == max_redirections+1, or 1 when following is off), (every third header probe is preceded by a send of an unrelated session that fails while its request is being written: nothing of it may appear on the probed request's connection), header-limit probe (exactly max_headers fields accepted, max_headers+1 refused), proxy probe (address dialled), plus the timeouts / TLS flags / root count handed to the connector (DialRequest). In the threads generator the objects are then distributed over 2..8 barrier-started threads that keep operating on their own clones and sending concurrently; each thread checks its objects against its own copy of the model and the parent checks that the originals did not change. Non-trivial: sequence contains >= 1 send and >= 2 live objects; distinct = hash(op sequence).",
         assumptions: &["root certificates are counted, not compared", "thread schedules are whatever the OS produces (Miri adds randomised schedules in the thorough tier when available)"],
         min_nontrivial: |t| t.pick(2_000, 60_000),
         gens,
